@@ -28,6 +28,7 @@ const (
 	sigContainer = "doif field-op: object/array value reported as matched (documented: never matched)"
 	sigEmptyCont = "doif op=byte_len_cmp: each empty object/array inside the measured value is counted as 1 byte instead of 2"
 	sigRegexCI   = "doif op=regex case_sensitive=false has no effect: the regex is matched against the unchanged text, case-sensitively"
+	sigEscState  = "doif op=byte_len_cmp on an object/array holding an escaped JSON string: the measured size (hence the decision) changes once another check has read that string"
 	sigMfAndRe   = "match_fields mode=and/and_prefix with a /regexp/ condition: no match although every condition holds"
 )
 
@@ -124,4 +125,18 @@ func classifyMf(m *mfRule, root *val, pre, final tri, got bool) string {
 	}
 	sort.Strings(parts)
 	return fmt.Sprintf("match_fields mode=%s invert=%v conds=[%s] want=%v got=%v", mode, m.inverted(), strings.Join(parts, " "), final, got)
+}
+
+// nondetSignature names a pair that got different decisions in one process.
+func nondetSignature(generic string, r *rule, ev *val) string {
+	for _, l := range r.leaves(nil) {
+		if l.op != "byte_len_cmp" {
+			continue
+		}
+		v := lookup(ev, l.path)
+		if k := v.kindOf(); (k == kObj || k == kArr) && subtreeLen(v, true) < 0 {
+			return sigEscState
+		}
+	}
+	return generic
 }
